@@ -25,6 +25,12 @@ for c in p.crates:
     for a in c.adts:
         if a.get("kind") == "Struct" and a.get("variants"):
             adt_fields[a["key"]] = [[f["name"], f["ty"]] for f in a["variants"][0].get("fields", [])]
+impls = {}
+for c in p.crates:
+    if c.is_test:
+        continue
+    for im in c.impls:
+        impls[im["key"]] = [im.get("self", ""), im.get("trait", "") or ""]
 keys = set(p.lib_bodies)
 for k, b in sorted(p.lib_bodies.items()):
     if b.kind in ("Fn", "AssocFn") and (k + "::{closure#0}") in keys and p.lib_bodies[k + "::{closure#0}"].coroutine:
@@ -34,6 +40,7 @@ for k, b in sorted(p.lib_bodies.items()):
             instrumented.append(k)
 json.dump({"_comment": "functions and constants present on the pinned tree (pretty def paths, generics stripped); signatures, struct fields and "
                        "which async fns are #[instrument]ed, used to undo pure renamings (pv/canon.py)",
+           "impls": impls,
            "closures": sorted(k for k, b in p.lib_bodies.items() if b.kind == "Closure"),
            "fns": fns, "consts": consts, "sigs": sigs, "adt_fields": adt_fields, "async_fns": async_fns, "instrumented": instrumented},
           open(os.path.join(os.path.dirname(os.path.dirname(os.path.abspath(__file__))), "spec", "pinned.json"), "w"), indent=0)
